@@ -176,7 +176,7 @@ func exactLemmaObl(name, fn, inst, prop string, x *Term, width int, signed bool,
 		seen := map[string]bool{}
 		var pts []*big.Int
 		addPt := func(n *big.Int) {
-			if n.Cmp(res.DomLo) >= 0 && n.Cmp(res.DomHi) <= 0 && !seen[n.String()] {
+			if n.Cmp(res.DomLo) >= 0 && n.Cmp(res.DomHi) <= 0 && !seen[n.String()] && exactAdmits(x, width, signed, assume, n) {
 				seen[n.String()] = true
 				pts = append(pts, n)
 			}
@@ -500,7 +500,22 @@ func (s *Session) lemmasC09(tier string) ([]*Obligation, []interface{}) {
 				if kb != nil && kb.OK {
 					// split by sign of the amplitude (the positive half is the hard one)
 					rt := Eq(kb.apply(ki.apply(x)), x)
-					add("roundtrip-nonpositive", []*Term{Not(posAmp)}, rt)
+					if isUnsignedT(ki.S) {
+						// UnsignedAsFloat divides every non-zero code by 2^(d-1)-1, also the negative
+						// amplitudes: the lowest codes come back one too small (recorded finding: code 1 at
+						// 8 and 16 bit, codes 1..256 at 32 bit). Those codes are their own obligation; all
+						// other non-positive codes are proved in the exact model (the divisor is not a
+						// power of two, so this half is as hard as the positive one).
+						L := int64(1)
+						if d > 16 {
+							L = 256
+						}
+						low := And(mk("bvuge", SBool, x, BVLit64(1, d)), mk("bvule", SBool, x, BVLit64(L, d)))
+						add("roundtrip-low-codes", []*Term{low}, rt)
+						out = append(out, exactLemmaObl("roundtrip-nonpositive-exact", key, in.Name, "C09", x, d, false, []*Term{Not(posAmp), Not(low)}, rt)...)
+					} else {
+						add("roundtrip-nonpositive", []*Term{Not(posAmp)}, rt)
+					}
 					if d <= 8 {
 						add("roundtrip-positive", []*Term{posAmp}, rt)
 					}
